@@ -603,6 +603,9 @@ def per_index_values(chk, prog, funcs):
                     continue
                 n_inst += 1
                 desc = '%s %s: %s' % (f.unit.where(c), name, f.unit.text(c)[:90])
+                if any(y.get('kind') == 'CallExpr' and callee_name(y) not in ('sqrt', 'fabs', 'square', 'log', 'exp', 'pow') for y in walk(val)):
+                    chk.instance(R, desc + ': value produced by a call, dependence not decided', 'undecided')
+                    continue
                 if names(val) & dep:
                     chk.instance(R, desc + ': depends on `%s`' % var)
                 else:
